@@ -53,13 +53,22 @@ Plans3     == {<<1, 2, 1>>}
 Levels(S, G, T) == {[st |-> s[1], fn |-> s[2], gtn |-> g, gt |-> t] : s \in S, g \in G, t \in T}
 Lvl(s, g, t) == [st |-> s[1], fn |-> s[2], gtn |-> g, gt |-> t]
 \* families: depth 1 complete; depth 2 with every static kind x few methods, and with few
-\* static kinds x every method table; everything x everything and depth 3 in the thorough tier
+\* static kinds x every method table (quick: pairwise, see LvGtn* / LvGt*); everything x
+\* everything and depth 3 in the thorough tier
 LvAllBase == Levels(StAllBase, GtnAll, GtAll)
 LvAllLeaf == Levels(StAllLeaf, GtnAll, GtAll)
 LvStatBase == Levels(StAllBase, GtnFew, GtFew)
 LvStatLeaf == Levels(StAllLeaf, GtnFew, GtFew)
+LvStatBase0 == Levels(StAllBase, {<<>>}, {<<>>})      \* quick: methods at one of the two levels only
+LvStatLeaf0 == Levels(StAllLeaf, {<<>>}, {<<>>})
 LvDynBase == Levels(StFew, GtnAll, GtAll)
 LvDynLeaf == Levels(StFewLeaf, GtnAll, GtAll)
+\* the same pairwise (quick tier): every get_template_name table at both levels x few get_template
+\* tables, and the other way round (the two methods interact only through "how many are given")
+LvGtnBase == Levels(StFew, GtnAll, GtFew)
+LvGtnLeaf == Levels(StFewLeaf, GtnAll, GtFew)
+LvGtBase == Levels(StFew, GtnFew, GtAll)
+LvGtLeaf == Levels(StFewLeaf, GtnFew, GtAll)
 \* the complete product, in four parts (four TLC runs side by side)
 LvAllBaseP1 == Levels({Sk("none"), Sk("inline"), Sk("obj")}, GtnAll, GtAll)
 LvAllBaseP2 == Levels({F("near.html"), F("nearc.html"), F("neart.html")}, GtnAll, GtAll)
